@@ -183,7 +183,7 @@ def canon_result(r):
     if isinstance(r, (bool, np.bool_)):
         return ["b", int(r)]
     if isinstance(r, str):
-        return ["s", int(r[1:])]
+        return ["s", int(r[1:])] if (r[:1] == "s" and r[1:].lstrip("-").isdigit()) else ["s?", r]
     if isinstance(r, dict):
         return ["d", int(r["v"])]
     if isinstance(r, (xr.Dataset,)):
